@@ -654,6 +654,15 @@ func (p *Parser) parseFunctionParameters() ([]ast.Node, bool) {
 	if !p.expectPeek(token.RPAREN) {
 		return nil, false
 	}
+	for i, id := range identifiers {
+		t := id.Value().Type()
+		if t != token.IDENT && !(t == token.DOTDOT && i == len(identifiers)-1) {
+			errLine, lineNum := p.ErrorLine(true)
+			p.errors = append(p.errors, fmt.Sprintf("%d: function parameters must be identifiers, not %s\n%s",
+				lineNum, id.Value().Literal(), errLine))
+			return nil, false
+		}
+	}
 	return identifiers, (p.prevToken.Type() == token.DOTDOT)
 }
 
